@@ -248,14 +248,16 @@ func (g *c02Gen) next(prefix string) *c02Op {
 		"drain-vec", "drain-rest", "rest-param-vec", "dissoc-multi", "dissoc-multi-set", "dissoc-multi-present", "catch-poolname", "let-shadow-poolname",
 		"eval-code", "call-fn-value", "let-shadow-closure", "let-shadow-closure-fn", "conj-set-multi",
 		"marshal-error", "closure-from-apply", "closure-from-map", "closure-from-swap", "assoc-vec-end",
-		"assoc-in-empty", "assoc-in-empty2", "update-in-empty", "unbase64", "base64-roundtrip"}
+		"assoc-in-empty", "assoc-in-empty2", "update-in-empty", "unbase64", "base64-roundtrip",
+		"def-fn-with-meta", "json-decode-proto-map", "json-decode-proto-vec", "merge-small-big", "fn-meta-shared"}
 	weights := []int{8, 3, 2, 6, 2, 5, 2, 2, 2, 2, 1, 1, 1, 3, 3, 2, 1, 1, 1, 1, 1, 1, 2, 1, 1, 2, 3, 2, 1, 4, 3, 2, 2, 2, 2,
 		3, 2, 2, 3, 2, 2, 2, 2,
 		2, 1, 1,
 		3, 2, 2, 3, 2, 1, 2, 1,
 		2, 2, 3, 1, 1,
 		2, 2, 2, 1, 2,
-		2, 1, 1, 2, 1}
+		2, 1, 1, 2, 1,
+		2, 2, 1, 2, 1}
 	kind := kinds[g.tp.Weighted(LaneWork, weights)]
 	var src, typ string
 	expectParent := ""
@@ -265,6 +267,20 @@ func (g *c02Gen) next(prefix string) *c02Op {
 	lst := func() *c02Val { v := g.pick("list"); parents = append(parents, v); return v }
 	mp := func() *c02Val { v := g.pick("map"); parents = append(parents, v); return v }
 	switch kind {
+	case "def-fn-with-meta":
+		// a function that carries a pool map as metadata is bound to a name
+		src, typ = "(do (def zz-fn-"+k+" (with-meta (fn [x] x) "+mp().Name+")) (meta zz-fn-"+k+"))", "map"
+	case "fn-meta-shared":
+		m := mp()
+		src, typ = "(do (def zz-f1-"+k+" (with-meta (fn [x] 1) "+m.Name+")) (def zz-f2-"+k+" (with-meta (fn [x] 2) "+m.Name+")) (merge (meta zz-f1-"+k+") {}))", "map"
+	case "json-decode-proto-map":
+		// the first argument is a prototype: only its type matters
+		src, typ = "(json-decode "+mp().Name+" \"{\\\"j"+k+"\\\": "+k+"}\")", "map"
+	case "json-decode-proto-vec":
+		src, typ = "(json-decode "+vec().Name+" \"["+k+", 2]\")", "vec"
+	case "merge-small-big":
+		// the left operand has fewer entries than the right one, and a key the right one lacks
+		src, typ = "(merge {:only-left"+k+" "+k+"} "+mp().Name+")", "map"
 	case "assoc-in-empty":
 		// the path ends in an empty map that is a value of its own, stored inside the parent
 		v := g.pick("map3")
